@@ -463,6 +463,9 @@ class ChirpZTransformExecutor:
             Q = (Q, Q)
 
         dtype = ary.dtype
+        if dtype.kind not in 'fc':
+            # integer or boolean input; the chirps must be floating point
+            dtype = config.precision
 
         m, n = ary.shape
         M, N = samples_out
